@@ -193,6 +193,8 @@ def oracle(ctx, t, r, ever, desc):
                     bad('index', 'index(%r,%s)=%r, position %d' %
                         (i, ax, t.index(i, ax), k))
             absent = ['~fresh~', ids[ax][0] + '~' if ids[ax] else 'x']
+            if '' not in ids[ax]:
+                absent.append('')
             stale = [i for i in ever[ax] if i not in set(ids[ax])]
             for i in absent + stale:
                 if t.exists(i, axis=ax):
@@ -205,6 +207,16 @@ def oracle(ctx, t, r, ever, desc):
                 else:
                     bad('stale-id-index', 'index(%r,%s) did not raise' %
                         (i, ax))
+                # the per-id accessors answer for ids on the axis only
+                for nm, f in (('metadata', lambda: t.metadata(i, axis=ax)),
+                              ('data', lambda: t.data(i, axis=ax))):
+                    try:
+                        got = f()
+                    except UnknownIDError:
+                        continue
+                    bad('stale-id-' + nm, '%s(%r,%s) answered %.80r for an '
+                        'id that is not on the axis %r' % (nm, i, ax, got,
+                                                           ids[ax]))
             ctx.count('absent_id_probes', len(absent))
             ctx.count('stale_id_probes', len(stale))
     checks.append(c_index)
